@@ -103,6 +103,20 @@ def u_runs(string, errors='replace'):
         out.append(':')
     return ''.join(out)
 ''', {'string': 'Str'}, 'Str'),
+    'q_empty': ('''
+def q_empty(text, full_quote=True):
+    out = []
+    if full_quote:
+        for b in normalize('NFC', to_unicode(text)).encode('utf8'):
+            out.append(_PATH_PART_QUOTE_MAP[b])
+    else:
+        for t in text:
+            if t in _PATH_DELIMS:
+                out.append(_PATH_PART_QUOTE_MAP[t])
+            else:
+                out.append(t)
+    return ''.join(out)
+''', {'text': 'Str', 'full_quote': 'Bool'}, 'Str'),
     'u_rebind': ('''
 def u_rebind(string, flag):
     bits = string.split('%')
@@ -186,6 +200,12 @@ REJECT = [
     ('pair loop whose body appends to the walked list',
      'def f(text):\n    bits = _ASCII_RE.split(text)\n    add = bits.append\n    res = [bits[0]]\n'
      '    for i in range(1, len(bits), 2):\n        add(text)\n        res.append(bits[i])\n    return "".join(res)\n',
+     {'text': 'Str'}, 'Str'),
+    ('str and bytes appended to the same empty list',
+     'def f(text):\n    out = []\n    out.append(text)\n    out.append(text.encode("utf8"))\n    return "".join(out)\n',
+     {'text': 'Str'}, 'Str'),
+    ('empty list that becomes a list of bytes joined as str',
+     'def f(text):\n    out = []\n    for b in text.split("%"):\n        out.append(b.encode("utf8"))\n    return "".join(out)\n',
      {'text': 'Str'}, 'Str'),
     ('to_unicode of a bytes', 'def f(text):\n    return to_unicode(text.encode("utf8"))\n', {'text': 'Str'}, 'Str'),
 ]
